@@ -333,13 +333,12 @@ def mrpWriteOk (s : State) (o : Obj) (x : Sentinel) : Bool :=
     s.phase == .normal && s.cachedOf o.n == .running && !fmDone s o.n o.f &&
     (s.kind o.n == .pipeline || s.st ⟨o.n, o.f, .join⟩ == some .complete)
   | .disabled, .fork =>
-    -- `Fork.disabled`/`writeDisable` in `stepStage`/`stepPipeline` (cached state
-    -- running) and, for a fork found empty while `Node.step` expands the forks of
-    -- a node that is just becoming runnable (live state running, cache not yet updated)
-    ((s.phase == .normal && (s.cachedOf o.n == .running || nodeState s o.n == .running)) ||
-      -- `RestoreForks` re-runs the expansion while re-attaching
-      s.phase == .loading) &&
-    (s.kind o.n == .pipeline || forkState s o.n o.f == .ready)
+    -- `Fork.disabled`/`writeDisable` in `stepStage`/`stepPipeline`, and
+    -- `expandForkFromObj` for a fork whose map source turned out null/empty: the
+    -- expansion also runs on the nodes bound to the same source
+    -- (`bNode.expandForks`), whatever their own state, and while re-attaching
+    -- (`RestoreForks`) — so there is no condition on the node, only on the fork
+    s.kind o.n == .pipeline || forkState s o.n o.f == .ready
   | _, _ => false
 
 /-- Guard of a job submission (`Node.step` → `Fork.stepStage` → `doSplit` /
